@@ -416,32 +416,40 @@ func (s *Server) handleNewConnection(ctx context.Context, rwc io.ReadWriteCloser
 		return fmt.Errorf("error writing login transaction: %w", err)
 	}
 
-	c := s.NewClientConn(rwc, remoteAddr)
-	defer c.Disconnect()
-
 	encodedPassword := clientLogin.GetField(FieldUserPassword).Data
-	c.Version = clientLogin.GetField(FieldVersion).Data
 
 	login := clientLogin.GetField(FieldUserLogin).DecodeObfuscatedString()
 	if login == "" {
 		login = GuestAccount
 	}
 
-	c.Logger = s.Logger.With("ip", ipAddr, "login", login)
-
-	// If authentication fails, send error reply and close connection
-	if !c.Authenticate(login, encodedPassword) {
-		t := c.NewErrReply(&clientLogin, "Incorrect login.")[0]
+	// If authentication fails, send error reply and close connection.  This happens before the connection is added
+	// to the client registry: an unauthenticated peer must not receive traffic meant for logged-in users, and the
+	// other users must not be told that a user they never saw has left.
+	if !(&ClientConn{Server: s}).Authenticate(login, encodedPassword) {
+		t := Transaction{
+			IsReply:   1,
+			ID:        clientLogin.ID,
+			ErrorCode: [4]byte{0, 0, 0, 1},
+			Fields:    []Field{NewField(FieldError, []byte("Incorrect login."))},
+		}
 
 		_, err := io.Copy(rwc, &t)
 		if err != nil {
 			return err
 		}
 
-		c.Logger.Info("Incorrect login")
+		s.Logger.Info("Incorrect login", "ip", ipAddr, "login", login)
 
 		return nil
 	}
+
+	c := s.NewClientConn(rwc, remoteAddr)
+	defer c.Disconnect()
+
+	c.Version = clientLogin.GetField(FieldVersion).Data
+
+	c.Logger = s.Logger.With("ip", ipAddr, "login", login)
 
 	if clientLogin.GetField(FieldUserIconID).Data != nil {
 		c.Icon = clientLogin.GetField(FieldUserIconID).Data
